@@ -125,7 +125,7 @@ def one_request(stub: bytes, vt: bool, sig_len: int, sign: bool, flavour: str, r
     vtr = _vt() if vt else None
     resp = None
     try:
-        with taps.time_limit(20):
+        with taps.time_limit(60):
             if flavour == "sync":
                 c = SyncRpcClient(Sock(srv), auth)  # type: ignore
                 c.bind(contexts=_isd_contexts())
@@ -137,7 +137,7 @@ def one_request(stub: bytes, vt: bool, sig_len: int, sign: bool, flavour: str, r
                     await c.bind(contexts=_isd_contexts())
                     return await c.request(0, 0, stub, verification_trailer=vtr)
 
-                resp = _LOOP.run_until_complete(asyncio.wait_for(go(), 5))
+                resp = _LOOP.run_until_complete(asyncio.wait_for(go(), 40))
     except MachineryError:
         raise
     except (Exception, taps.Hang) as e:  # noqa  (the client under test rejected the reply or failed: judged from what was observed)
